@@ -16,8 +16,10 @@
    non-test in test position are reported at the first byte of THAT token with its length
    (C18_offending_token, C18_unknown_command_at_token, C18_non_test_at_token, C18_argument_at_token); the
    categories are also exercised against the implementation by the check with the expected offset computed
-   independently.  'never before the first invalidating token' in the
-   viable-prefix sense needs C01_complete and is checked on the implementation (mutants). *)
+   independently.  Second clause ("never before the first token that makes the script invalid"): whatever the
+   rejection, it is not reported inside a prefix of the grammar -- C18_not_inside_valid_prefix (by tokens) and
+   C18_never_before_first_invalid (by byte offsets, with the lexer's forward order C18_lexer_moves_forward).  The viable-prefix sense beyond the prefixes of wf_prefix (inside tests and
+   argument lists) is checked on the implementation (mutants). *)
 From Coq Require Import String.
 From Coq Require Import List NArith Bool Arith.
 From SV Require Import Bytes Lexer Tables ArgCheck ArgSpec Machine Printer GenTables.
@@ -219,6 +221,41 @@ Theorem C18_argument_at_token :
     In t atoks /\ parse T text = Reject e' (t_pos t) (Datatypes.length (t_val t)).
 Proof. exact RejectFacts.illegal_arguments_rejected. Qed.
 Print Assumptions C18_argument_at_token.
+
+(* every token after a given one, and the place of a lexical error, lie strictly after its first byte *)
+Theorem C18_lexer_moves_forward :
+  forall (text : bytes) (a : list token) (t : token) (b : list token),
+  fst (lex text) = a ++ t :: b ->
+  (forall u : token, In u b -> t_pos t < t_pos u) /\
+  (forall p : nat, snd (lex text) = Some p -> t_pos t < p).
+Proof. exact RejectFacts.lex_order. Qed.
+Print Assumptions C18_lexer_moves_forward.
+
+(* a rejection is never reported at a token of a prefix of the grammar: it is reported at a later token, at the lexical error, or at the end *)
+Theorem C18_not_inside_valid_prefix :
+  forall T : tables,
+  twf_tables T = true ->
+  forall (text : bytes) (pre rest : list token) (L : list bytes) (prev : option bytes)
+    (k : nat) (e : perr) (pos tlen : nat),
+  wf_prefix T (map strip_pos pre) L prev k ->
+  fst (lex text) = pre ++ rest ->
+  parse T text = Reject e pos tlen ->
+  e = EUnknownToken /\ snd (lex text) = Some pos \/
+  (e = EEndExpected \/ e = EEndUnfinished) /\ pos = Datatypes.length text \/
+  (exists t : token, In t rest /\ t_pos t = pos /\ tlen = Datatypes.length (t_val t)).
+Proof. exact RejectFacts.reject_not_in_prefix. Qed.
+Print Assumptions C18_not_inside_valid_prefix.
+
+(* second clause of the property: the reported offset is never before the first token after a prefix of the grammar *)
+Theorem C18_never_before_first_invalid :
+  forall T : tables,
+  twf_tables T = true ->
+  forall (text : bytes) (pre : list token) (t0 : token) (rest : list token) 
+    (L : list bytes) (prev : option bytes) (k : nat) (e : perr) (pos tlen : nat),
+  wf_prefix T (map strip_pos pre) L prev k ->
+  fst (lex text) = pre ++ t0 :: rest -> parse T text = Reject e pos tlen -> t_pos t0 <= pos.
+Proof. exact RejectFacts.reject_not_before. Qed.
+Print Assumptions C18_never_before_first_invalid.
 
 (* non-vacuity: line 3, column 4, length 3 for an unknown command inside a block, from the theorem *)
 Theorem C18_offending_examples :
